@@ -277,6 +277,31 @@ def _ops():
     op("cuboid.area", (3,), ("cub",), lambda g: g.area, coll=False)
     op("cuboid.intersect(l)", (3,), ("cub", "l0"), lambda g, l: g.intersect(l), cmp="multiset", coll=False)
     op("dist(p,cuboid)", (3,), ("p3", "cub"), lambda a, b: dist(a, b), coll=False)
+    # ---- constructors that take objects
+    op("translation(p)", (2, 3), ("p1",), lambda a: G.translation(a), coll=False)
+    op("rotation(axis)", (3,), ("p1",), lambda a: G.rotation(0.7, axis=a), coll=False)
+    op("reflection(l)", (2,), ("l0",), lambda a: G.reflection(a), coll=False)
+    op("reflection(e)", (3,), ("e0",), lambda a: G.reflection(a), coll=False)
+    op("Transformation.from_points", (2,), ("p0", "p1", "p2", "p3"), lambda a, b, c, e: Transformation.from_points((a, b), (b, c), (c, e), (e, a)), coll=False)
+    op("Circle(center)", (2,), ("p1",), lambda a: Circle(a, 2), coll=False)
+    op("Ellipse(center)", (2,), ("p1",), lambda a: Ellipse(a, 2, 3), coll=False)
+    op("Sphere(center)", (2, 3), ("p1",), lambda a: Sphere(a, 2), coll=False)
+    op("Cone(vertex,base)", (3,), ("p0", "p1"), lambda a, b: G.Cone(a, b, 2), coll=False)
+    op("Cylinder(center,direction)", (3,), ("p0", "p1"), lambda a, b: G.Cylinder(a, b, 2), coll=False)
+    op("Conic.from_points", (2,), ("p0", "p1", "p2", "p3", "pon"), lambda *a: Conic.from_points(*a), coll=False)
+    op("Conic.from_lines", (2,), ("l0", "l1"), lambda a, b: Conic.from_lines(a, b), coll=False)
+    op("Quadric.from_planes", (3,), ("e0", "e2"), lambda a, b: Quadric.from_planes(a, b), coll=False)
+    op("Conic.from_foci", (2,), ("p0", "p1", "p2"), lambda a, b, c: Conic.from_foci(a, b, c), coll=False, tol=1e-5)
+    op("Conic.from_crossratio", (2,), ("p0", "p1", "p2", "p3"), lambda a, b, c, e: Conic.from_crossratio(0.5, a, b, c, e), coll=False)
+    op("Conic.from_tangent", (2,), ("qtan", "p0", "p1", "p2", "p3"), lambda l, a, b, c, e: Conic.from_tangent(l, a, b, c, e), coll=False, tol=1e-5)
+    op("Segment(p,p)", (2, 3), ("p0", "p1"), lambda a, b: Segment(a, b), coll=False)
+    op("Triangle(p,p,p)", (2, 3), ("p0", "p1", "p2"), lambda a, b, c: Triangle(a, b, c), coll=False)
+    op("Line(p,p)", (2, 3), ("p0", "p1"), lambda a, b: Line(a, b), coll=False)
+    op("Plane(p,p,p)", (3,), ("p0", "p1", "p2"), lambda a, b, c: Plane(a, b, c), coll=False)
+    op("Plane(l,p)", (3,), ("l0", "p2"), lambda a, b: Plane(a, b), coll=False)
+    op("RegularPolygon(center)", (2,), ("p1",), lambda a: G.RegularPolygon(a, 2, 5), coll=False)
+    op("RegularPolygon(center,axis)", (3,), ("p1", "p2"), lambda a, b: G.RegularPolygon(a, 2, 5, axis=b), coll=False, scal=(0,))
+    op("Cuboid(p,p,p,p)", (3,), ("cub",), lambda c: c.faces.area, coll=False)
     # ---- equality
     for nm, dims in (("p0", (2, 3)), ("l0", (2, 3)), ("e0", (3,)), ("q0", (2, 3)), ("t0", (2, 3)), ("s0", (2, 3)), ("g0", (2, 3))):
         op(f"=={nm}", dims, (nm, nm), lambda a, b: a == b, scal=(0,), coll=False)
@@ -303,7 +328,16 @@ def complete_pool(d, pool):
 
 
 def pool_for(d, v):
-    return complete_pool(d, build_pool(d, v))
+    pool = complete_pool(d, build_pool(d, v))
+    if int(v[19]) % 2:
+        # dtype diversity: integer-valued points and transformations get an integer array (mixed dtypes within one call
+        # are part of the input space, e.g. Point(1, 2) next to a point returned by meet)
+        for name, obj in pool.items():
+            if isinstance(obj, (PT, TT)) and not isinstance(obj, YT):
+                a = obj.array
+                if not np.iscomplexobj(a) and np.all(a == np.round(a)):
+                    obj.array = a.astype(np.int64)
+    return pool
 
 
 def ops_for(d):
@@ -373,6 +407,8 @@ def same(a, b, cmp="auto", tol=1e-6):
             return False, f"types {type(a).__name__} != {type(b).__name__}"
         if a.array.shape != b.array.shape:
             return False, f"shapes {a.array.shape} != {b.array.shape}"
+        if np.array_equal(a.array, b.array, equal_nan=True):
+            return True, ""  # identical arrays (also degenerate ones such as all-zero) agree
         return bool(C.peq_all(a.array, b.array, naxes_of(a), tol)), C.short((a.array.tolist(), b.array.tolist()), 200)
     if isinstance(a, G.base.Tensor) or isinstance(b, G.base.Tensor):
         return False, f"types {type(a).__name__} != {type(b).__name__}"
